@@ -127,3 +127,85 @@ theorem accepts_of_total (hS : Setup P c aL aS nL n) (h : ∀ e k p, P.codec.acc
   simp [he, h]
 
 end Flute.BencShape
+
+namespace Flute.BencShape
+open Flute Flute.Fec Flute.BlockEnc Flute.BencArith Flute.BencBlocks Flute.BencInv Flute.BencTrace
+
+/-- a transfer of the object `c` (buffer source) under parameters `P`: a fresh encoder, then the run `tr`
+    of successful reads reaching `s` -/
+structure Run (P : Params) (c : Bytes) (aL aS nL n : Nat) (closable : Bool) (tr : List (Bool × Pkt)) (s : Enc) : Prop where
+  notLegacy : P.legacy = false
+  e_pos : 0 < P.e
+  b_pos : 0 < P.b
+  len_eq : P.len = c.length
+  l_pos : 0 < c.length
+  window_pos : 1 ≤ P.window
+  part : Partition.blockPartitioning P.b P.len P.e = .ok (aL, aS, nL, n)
+  accepts : Accepts P c aL aS nL n
+  reads : ∃ s0, Enc.new P (.buffer c) closable = .ok s0 ∧ Reads P s0 tr s
+
+variable {P : Params} {c : Bytes} {aL aS nL n : Nat} {closable : Bool} {tr : List (Bool × Pkt)} {s : Enc}
+
+theorem Run.setup (h : Run P c aL aS nL n closable tr s) : Setup P c aL aS nL n :=
+  ⟨h.notLegacy, h.e_pos, h.len_eq, by rw [h.len_eq]; exact h.l_pos,
+   good_of_partition P.b P.len P.e aL aS nL n h.b_pos h.e_pos (by rw [h.len_eq]; exact h.l_pos) h.part⟩
+
+/-- the invariants hold in the state a run has reached -/
+theorem Run.inv (h : Run P c aL aS nL n closable tr s) :
+    Inv P c aL aS nL n s ∧ TInv P c aL aS nL (pkts tr) s ∧ s.closable = closable ∧
+    (s.stopped = true ↔ ∃ x, x ∈ tr ∧ x.1 = true) := by
+  obtain ⟨s0, hnew, hr⟩ := h.reads
+  have hs0 := new_state h.part hnew
+  obtain ⟨hI0, hT0⟩ := inv_init h.setup closable
+  rw [← hs0] at hI0 hT0
+  have := reach h.setup h.accepts hI0 hT0 (by rw [hs0]) hr
+  rw [hs0] at this
+  exact this
+
+/-- executable: read (unforced) until something that is not a packet -/
+def runAll (P : Params) : Nat → Enc → List Pkt
+  | 0, _ => []
+  | fuel + 1, s =>
+    match BlockEnc.read P s false with
+    | (.pkt p, s') => p :: runAll P fuel s'
+    | _ => []
+
+theorem Reads.cons {P : Params} {s s' s'' : Enc} {f : Bool} {p : Pkt} {tr : List (Bool × Pkt)}
+    (h : BlockEnc.read P s f = (.pkt p, s')) (hr : Reads P s' tr s'') : Reads P s ((f, p) :: tr) s'' := by
+  induction hr with
+  | nil => exact Reads.snoc (Reads.nil s) h
+  | snoc _ hstep ih => have := Reads.snoc ih hstep; simpa using this
+
+/-- executable: the run of unforced reads until something that is not a packet, with the state reached -/
+def runPairs (P : Params) : Nat → Enc → List (Bool × Pkt) × Enc
+  | 0, s => ([], s)
+  | fuel + 1, s =>
+    match BlockEnc.read P s false with
+    | (.pkt p, s') => ((false, p) :: (runPairs P fuel s').1, (runPairs P fuel s').2)
+    | _ => ([], s)
+
+theorem reads_runPairs (P : Params) : ∀ fuel s, Reads P s (runPairs P fuel s).1 (runPairs P fuel s).2 := by
+  intro fuel
+  induction fuel with
+  | zero => intro s; exact Reads.nil s
+  | succ fuel ih =>
+    intro s
+    unfold runPairs
+    split
+    · rename_i p s' h; exact Reads.cons h (ih s')
+    · exact Reads.nil s
+
+theorem runPairs_unforced (P : Params) : ∀ fuel s x, x ∈ (runPairs P fuel s).1 → x.1 = false := by
+  intro fuel
+  induction fuel with
+  | zero => intro s x hx; cases hx
+  | succ fuel ih =>
+    intro s x hx
+    unfold runPairs at hx
+    split at hx
+    · rcases List.mem_cons.mp hx with h | h
+      · subst h; rfl
+      · exact ih _ x h
+    · cases hx
+
+end Flute.BencShape
